@@ -114,6 +114,14 @@ fn judge_time(prop: &str, known: &[KnownEntry], t: &TimeSpec, self_ctx: &Ctx, is
             // neighbours with the same wall-clock reading under another offset (another instant), and the same instant spelled differently
             RevokedSpec { serial: vec![10], time: TimeSpec { unix: t.unix - 3600, nanos: t.nanos, offset: t.offset + 3600 }, reason: None, invalidity: None },
             RevokedSpec { serial: vec![11], time: TimeSpec { unix: t.unix, nanos: t.nanos, offset: t.offset - 1800 }, reason: None, invalidity: Some(*t) },
+            // the same instant in two roles in neighbouring entries: an invalidity date (always GeneralizedTime) directly
+            // before a revocation date at that instant (UTCTime or GeneralizedTime by its year), and the other way round
+            RevokedSpec { serial: vec![12], time: day(t, -2), reason: None, invalidity: Some(*t) },
+            RevokedSpec { serial: vec![13], time: *t, reason: None, invalidity: None },
+            RevokedSpec { serial: vec![14], time: *t, reason: Some(1), invalidity: inv(-3) },
+            RevokedSpec { serial: vec![15], time: day(t, -3), reason: None, invalidity: None },
+            RevokedSpec { serial: vec![16], time: day(t, -3), reason: None, invalidity: Some(TimeSpec { unix: t.unix, nanos: 999_999_999, offset: 0 }) },
+            RevokedSpec { serial: vec![17], time: TimeSpec { unix: t.unix, nanos: 1, offset: t.offset }, reason: None, invalidity: None },
         ];
         // (entries shifted off the calendar by the construction above are not inputs of C09)
         let revoked: Vec<RevokedSpec> = revoked.into_iter().filter(|r| (0..=9999).contains(&r.time.utc_year())).collect();
@@ -136,7 +144,7 @@ fn judge_time(prop: &str, known: &[KnownEntry], t: &TimeSpec, self_ctx: &Ctx, is
     }
     // normalise loci of per-entry findings
     for f in findings.iter_mut() {
-        for i in 0..7 {
+        for i in 0..13 {
             let pre = format!("tbs.revoked[{}].", i);
             if f.locus.starts_with(&pre) {
                 f.locus = f.locus.replace(&pre, "");
